@@ -109,7 +109,20 @@ inline std::string mutate(Src& s, std::string& b) {
         b += static_cast<char>(s.draw(256));
         return "append to empty";
     }
-    switch (s.weighted({4, 3, 3, 2, 2, 2, 2, 2, 1})) {
+    switch (s.weighted({4, 3, 3, 2, 2, 2, 2, 2, 1, 3})) {
+        case 9: {  // insert or overwrite with a token that is special in one of the formats
+            static const char* const tokens[] = {"%00%", "%0%", "%%", "%ffffffff%", "%110000%", "%d800%", "%80%", "%20%", "&#0;", "&#x0;", "&#xD800;", "&#1114112;", "&#xFFFE;", "]]>", "<!DOCTYPE osm [<!ENTITY a \"b\">]>", "&a;",
+                                                 "<text>", "</text>", "<comment/>", "<tag k='' v=''/>", "visible='maybe'", "lat='91'", "lon='1e99'", "timestamp='2000-02-30T00:00:00Z'", "\xff", "\xfe", "\xff\xe0\x04o5m2", "\x00\x00\x00",
+                                                 "\xff\xff\xff\xff\xff\xff\xff\xff\xff\x01", "\x80\x80\x80\x80\x80\x80\x80\x80\x80\x80\x80", "n0", "w-1 N", "r1 Mx1@", "dX", "t2000-13-01T00:00:00Z", "x999", "\r\n", "\n\n", " \t "};
+            const char* tok = tokens[s.draw(sizeof(tokens) / sizeof(tokens[0]))];
+            size_t tl = std::strlen(tok);
+            if (tl == 0) tl = 3;  // the token of three NUL bytes
+            std::string t(tok, tok[0] == 0 ? 3 : tl);
+            size_t p = s.draw(b.size() + 1);
+            if (s.boolean() && p + t.size() <= b.size()) b.replace(p, t.size(), t);
+            else b.insert(p, t);
+            return "token at " + std::to_string(p);
+        }
         case 0: {
             size_t n = s.draw(b.size());
             b.resize(n);
